@@ -4,5 +4,5 @@
 # same property do not run at the same time (they share work directories).
 P=${1:-3}
 cd /verif
-ls seeded | grep '^C[0-9]' | awk '{print substr($0,4) " " $0}' | sort | awk '{print $2}' | xargs -P $P -I{} bash -c 'id={}; prop=${id:0:3}; out=$(tools/seed_check.sh $id $prop quick 2>&1); rc=$(echo "$out" | grep -o "^PASS\|^FAIL\|FAILURE" | tail -1); echo "$id $prop $rc $(echo "$out" | grep -m1 "VIOLATION" | cut -c1-160)"' | sort > seeded/RESULTS.txt
+ls seeded | grep '^C[0-9]' | awk '{print substr($0,4) "_ " $0}' | sort | awk '{print $2}' | xargs -P $P -I{} bash -c 'id={}; prop=${id:0:3}; out=$(tools/seed_check.sh $id $prop quick 2>&1); rc=$(echo "$out" | grep -o "^PASS\|^FAIL\|FAILURE" | tail -1); echo "$id $prop $rc $(echo "$out" | grep -m1 "VIOLATION" | cut -c1-160)"' | sort > seeded/RESULTS.txt
 cat seeded/RESULTS.txt
